@@ -18,7 +18,7 @@ CFG = {
         "C11_fill", "C11_fill_reachable", "C11_minfill_not_invariant", "C11_maxC_ge2_needed", "C11_minC_ge1_needed",
         # wave 2: the POINTER-LEVEL model (Heap.lean: arena of nodes, stored parent fields, nil dereferences as faults, fuel recursion)
         # refines the functional model
-        "Heap.C11_heap_search_refines", "Heap.C11_heap_findLeaf_refines",
+        "Heap.C11_heap_search_refines", "Heap.C11_heap_findLeaf_refines", "Heap.C11_heap_split_refines",
         # T1: definitions regenerated from index/rtree/{geom,rtree}.go of the tree under test = the model's
         "C11_tie_size", "C11_tie_margin", "C11_tie_containsPoint", "C11_tie_containsRect", "C11_tie_intersect",
         "C11_tie_enlarge", "C11_tie_initBoundingBox", "C11_tie_boundingBox", "C11_tie_computeBoundingBox",
@@ -35,8 +35,8 @@ CFG = {
         "run compares it with harness/cmd/c11/skeleton.expected, the text the hand-written model was transcribed from",
         "pointer-level model lean/GeomV/C11/Heap.lean (hand-written statement by statement from the skeleton text; arena of nodes with stored parent "
         "fields) is run by the judge next to the functional model on every exact history of <= 400 operations with coordinates below 2^70: no fault, "
-        "erase(arena) = functional tree, same Delete result/Size/Depth, parent audit on the arena; ProofsHeap.lean proves that its searchIntersect and "
-        "findLeaf refine the functional model",
+        "erase(arena) = functional tree, same Delete result/Size/Depth, parent audit on the arena; ProofsHeap.lean proves that its searchIntersect, "
+        "findLeaf and split refine the functional model",
         "Lean 4.33.0 kernel; axioms of every theorem printed by #print axioms must be within {propext, Classical.choice, Quot.sound}",
         "model lean/GeomV/C11/Model.lean (functional tree with the stored fields of the Go structs; parent links = recursion path; "
         "findLeaf + entry removal + condenseTree's upward loop fused into one recursion `delIn`) is tied to /repo/index/rtree/rtree.go "
